@@ -290,6 +290,12 @@ func (eng *Engine) registerIntrinsics() {
 		}
 		return nil
 	}
+	// pdfcpu's loggers are nil in the model (library default); installing or removing one is a no-op
+	// (the logger objects live in shared package-initialisation state)
+	for _, name := range []string{"SetCLILogger", "SetDebugLogger", "SetInfoLogger", "SetStatsLogger", "SetTraceLogger", "SetParseLogger",
+		"SetReadLogger", "SetValidateLogger", "SetOptimizeLogger", "SetWriteLogger", "DisableLoggers"} {
+		in["github.com/pdfcpu/pdfcpu/pkg/log."+name] = func(e *Exec, fr *frame, fn *ssa.Function, args []Value) Value { return nil }
+	}
 	// assembly kernels with a generic Go twin in the same package
 	for from, to := range map[string][2]string{
 		"crypto/md5.block": {"crypto/md5", "blockGeneric"},
